@@ -13,6 +13,10 @@ for n in names:
     d = f'{ROOT}/seeded/{n}'
     meta = json.load(open(d + '/meta.json'))
     prop = meta['breaks_property']
+    if meta.get('out_of_domain'):
+        rows.append((n, prop, 'not claimed: needs a mesh that Mesh.is_valid() rejects', 'see meta.json'))
+        print(rows[-1], flush=True)
+        continue
     if meta.get('neutralised_by_fix'):
         # a later fix: commit in /repo made this change harmless (its demonstration passes with the change applied)
         rows.append((n, prop, f"no longer a defect (fix {meta['neutralised_by_fix']})", 'detected before that fix; see meta.json'))
